@@ -194,7 +194,7 @@ impl Parseable for Test {
                 unary!(
                     "-perm",
                     Test::Perm,
-                    quote_delimiter().and_then(PermCheck::parse)
+                    quote_delimiter().and_then(terminated(PermCheck::parse, eof))
                 ),
                 unary!("-pool", Test::Pool, String::parse),
                 literal("-readable").value(Test::Readable),
